@@ -1,5 +1,256 @@
-"""placeholder; replaced by the mutation self-test."""
-def run_for_property(pid, root=None):
-    return 0
+"""Mutation self-test of the checkers.
+
+Each entry applies one textual edit to a scratch copy of the nine modules
+(under a fresh temporary directory outside /repo and /verif, removed afterwards)
+and runs the property's check on the copy.  `bad` entries must be reported as a
+VIOLATION by the named rule; `twin` entries are behaviour-preserving and must
+leave the check silent (exit 0).  A self-test failure is an ANALYSIS-ERROR of
+the checker, never a violation of the tree under analysis.  An entry whose
+source fragment no longer exists is reported as skipped."""
+import contextlib
+import io
+import os
+import shutil
+import sys
+import tempfile
+
+from .core import MODULES, REPO
+
+# (id, property, rule, kind, file, old, new)
+M = []
+
+
+def bad(i, pid, rule, f, old, new): M.append((i, pid, rule, 'bad', f, old, new))
+def twin(i, pid, f, old, new): M.append((i, pid, None, 'twin', f, old, new))
+
+
+# ---- C01
+bad('c01-term-rocks', 'C01', 'TERM', 't2data.py', "                        outfile.write_values(vals, 'rocks1.2')\n        outfile.write('\\n')\n", "                        outfile.write_values(vals, 'rocks1.2')\n")
+bad('c01-kw-coft', 'C01', 'KW', 't2data.py', "outfile.write('COFT\\n')", "outfile.write('COFTS\\n')")
+bad('c01-kw-gener', 'C01', 'KW', 't2data.py', "            outfile.write('GENER\\n')\n            for generator", "            outfile.write('GENR\\n')\n            for generator")
+bad('c01-recseq-order', 'C01', 'RECSEQ', 't2data.py', "        outfile.write_value_line(paramw, 'param2')\n        self.write_timesteps(outfile)\n        outfile.write_value_line(self.parameter, 'param3')", "        outfile.write_value_line(paramw, 'param2')\n        outfile.write_value_line(self.parameter, 'param3')\n        self.write_timesteps(outfile)")
+bad('c01-recseq-missing', 'C01', 'RECSEQ', 't2data.py', "                outfile.write_values(inc[1], 'incon2')\n", "                pass\n")
+bad('c01-fmap-swap', 'C01', 'FMAP', 't2data.py', "con.nseq, con.nad1, con.nad2, con.direction] + \\\n                    con.distance", "con.nseq, con.nad2, con.nad1, con.direction] + \\\n                    con.distance")
+bad('c01-fmap-volume', 'C01', 'FMAP', 't2data.py', "blk.rocktype.name, blk.volume,\n                            blk.ahtx, blk.pmx]", "blk.rocktype.name, blk.ahtx,\n                            blk.volume, blk.pmx]")
+bad('c01-fmap-reader', 'C01', 'FMAP', 't2data.py', "isot, [d1, d2], areax, betax,", "isot, [d2, d1], areax, betax,")
+bad('c01-namefix', 'C01', 'NAMEFIX', 't2data.py', "            name1, name2 = fix_blockname(name1), fix_blockname(name2)", "            name1, name2 = fix_blockname(name1), name2")
+bad('c01-chunk-k', 'C01', 'CHUNK', 't2data.py', "            nlines = int(ceil(ntimes / 4.))\n            for i in range(nlines):\n                i1, i2 = i * 4, min((i + 1) * 4, ntimes)\n                vals = list(gen.time[i1: i2])", "            nlines = int(ceil(ntimes / 4.))\n            for i in range(nlines):\n                i1, i2 = i * 4, min((i + 1) * 8, ntimes)\n                vals = list(gen.time[i1: i2])")
+bad('c01-chunk-ceil', 'C01', 'CHUNK', 't2data.py', "            nlines = int(ceil(self.output_times['num_times_specified'] / 8.))\n            for i in range(nlines):\n                i1, i2", "            nlines = int(ceil(self.output_times['num_times_specified'] / 4.))\n            for i in range(nlines):\n                i1, i2")
+bad('c01-twinspec', 'C01', 'TWINSPEC', 't2data.py', "    'blocks': [['name', 'nseq', 'nadd', 'rocktype', 'volume',\n               'ahtx', 'pmx', 'x', 'y', 'z'],\n              ['5s', '5d', '5d', '5s'] + ['15.8e'] * 3", "    'blocks': [['name', 'nseq', 'nadd', 'rocktype', 'volume',\n               'pmx', 'ahtx', 'x', 'y', 'z'],\n              ['5s', '5d', '5d', '5s'] + ['15.8e'] * 3")
+bad('c01-present', 'C01', 'PRESENT', 't2data.py', "             self.selection,\n             self.diffusion,", "             self.diffusion,\n             self.selection,")
+bad('c01-disp', 'C01', 'DISP', 't2data.py', "                 self.write_lineq,\n                 self.write_solver,", "                 self.write_solver,")
+bad('c01-noloss', 'C01', 'NOLOSS', 't2data.py', "                self.write_connections(meshfile)\n                meshfile.close()", "                meshfile.close()")
+bad('c01-bin', 'C01', 'BIN', 't2data.py', "        for var in ['d1', 'd2', 'area', 'dircos', 'sigma']:", "        for var in ['d1', 'd2', 'dircos', 'area', 'sigma']:")
+bad('c01-endkw', 'C01', 'ENDKW', 't2data.py', "t2data_sections + ['ENDCY', 'ENDFI']])", "t2data_sections])")
+bad('c01-byname', 'C01', 'BYNAME', 't2data.py', "            outfile.write_value_line(self.lineq, 'lineq')", "            outfile.write_value_line(self.solver, 'lineq')")
+twin('c01-twin-rename', 'C01', 't2data.py', "        if self.selection:\n            outfile.write('SELEC\\n')", "        if len(self.selection) > 0:\n            outfile.write('SELEC\\n')")
+twin('c01-twin-comment', 'C01', 't2data.py', "        outfile.write('CONNE\\n')\n", "        # connections section\n        outfile.write('CONNE\\n')\n")
+# ---- C02
+bad('c02-width', 'C02', 'LAY', 'fixed_format_file.py', "w = abs(int(fmt.partition('.')[0]))", "w = int(fmt.partition('.')[0])")
+bad('c02-guard', 'C02', 'FIT', 'fixed_format_file.py', "                if len(valstr) > width: valstr = fit_value_string(val, f, width)\n", "")
+bad('c02-helper', 'C02', 'FIT', 'fixed_format_file.py', "            if len(valstr) == width: return valstr", "            if len(valstr) >= width: return valstr")
+bad('c02-table', 'C02', 'LAY', 't2incons.py', "'incon2': [['x1', 'x2', 'x3', 'x4'], ['20.13e'] * 4]", "'incon2': [['x1', 'x2', 'x3', 'x4'], ['20.13e'] * 3]")
+twin('c02-twin', 'C02', 'fixed_format_file.py', "                width = self.spec_width[f[0:-1]]\n                if len(valstr) > width:", "                width = self.spec_width[f[:-1]]\n                if len(valstr) > width:")
+# ---- C03
+bad('c03-unit-read', 'C03', 'UNIT', 'mulgrids.py', "            pos = np.array([x, y]) * self.unit_scale\n            newnode", "            pos = np.array([x, y])\n            newnode")
+bad('c03-unit-write', 'C03', 'UNIT', 'mulgrids.py', "geo.write_values([col.name.ljust(3), col.surface / self.unit_scale], 'surface')", "geo.write_values([col.name.ljust(3), col.surface], 'surface')")
+bad('c03-just', 'C03', 'JUST', 'mulgrids.py', "            name = name.strip().rjust(self.layername_length)\n            bottom *=", "            name = name.strip()\n            bottom *=")
+bad('c03-kw', 'C03', 'DISP', 'mulgrids.py', "geo.write('LAYERS\\n')", "geo.write('LAYRS\\n')")
+bad('c03-term', 'C03', 'TERM', 'mulgrids.py', "            geo.write_values(vals, 'layer')\n        geo.write('\\n')", "            geo.write_values(vals, 'layer')")
+bad('c03-fmap', 'C03', 'FMAP', 'mulgrids.py', "vals = [lay.name.ljust(3), lay.bottom / self.unit_scale, lay.centre / self.unit_scale]", "vals = [lay.name.ljust(3), lay.centre / self.unit_scale, lay.bottom / self.unit_scale]")
+bad('c03-byname', 'C03', 'BYNAME', 'mulgrids.py', "                '_unit_type', 'gdcx', 'gdcy', 'cntype',", "                'unit_type', 'gdcx', 'gdcy', 'cntype',")
+bad('c03-header', 'C03', 'HEADER', 'mulgrids.py', "        self.atmosphere_type = self._atmosphere_type\n        self.unit_type", "        self.unit_type")
+bad('c03-invtable', 'C03', 'HEADER', 'mulgrids.py', "block_orders = {0: 'layer_column', 1: 'dmplex'}", "block_orders = {1: 'layer_column', 0: 'dmplex'}")
+# ---- C04
+bad('c04-dim-vol', 'C04', 'DIM', 'mulgrids.py', "return (surf - lay.bottom) * col.area", "return (surf + lay.bottom) * col.area")
+bad('c04-dim-area', 'C04', 'DIM', 'mulgrids.py', "area = sidelength * height", "area = sidelength + height")
+bad('c04-dim-centre', 'C04', 'DIM', 'mulgrids.py', "midelev = 0.5 * (lay.bottom + col.surface)", "midelev = 0.5 * (lay.bottom - col.surface)")
+bad('c04-dim-dist', 'C04', 'DIM', 't2grids.py', "belowdist = col.surface - thisblk.centre[2]", "belowdist = col.surface + thisblk.centre[2]")
+bad('c04-pred', 'C04', 'PRED', 't2grids.py', "layercols = [col for col in geo.columnlist if col.surface > lay.bottom]", "layercols = [col for col in geo.columnlist if col.surface >= lay.bottom]")
+bad('c04-twin-orient', 'C04', 'TWIN', 't2grids.py', "con = t2connection([thisblk, aboveblk], 3,", "con = t2connection([aboveblk, thisblk], 3,")
+bad('c04-twin-pred', 'C04', 'TWIN', 't2grids.py', "if (geo.layerlist.index(lay) == 1) or (col.surface <= lay.top):", "if (geo.layerlist.index(lay) == 1) or (col.surface < lay.top):")
+bad('c04-twin-above', 'C04', 'TWIN', 'mulgrids.py', "                    abovelayer = self.layerlist[ilay]\n", "                    abovelayer = self.layerlist[ilay + 1]\n")
+twin('c04-twin-benign', 'C04', 'mulgrids.py', "            if surf is not None: return (surf - lay.bottom) * col.area", "            if surf is not None: return col.area * (surf - lay.bottom)")
+# ---- C06
+bad('c06-none', 'C06', 'NONE', 't2listing.py', "            tname = self.next_table_TOUGH2()\n            if tname is None:\n                raise Exception('Table ' + tablename + ' not found in listing at current time.')", "            tname = self.next_table_TOUGH2()")
+bad('c06-restore', 'C06', 'RESTORE', 't2listing.py', "        self._index = old_index\n        short_times", "        short_times")
+bad('c06-sign', 'C06', 'SIGN', 't2listing.py', "list(-self._data[rowindex,:])", "list(self._data[rowindex,:])")
+bad('c06-sign2', 'C06', 'SIGN', 't2listing.py', "hist[sel_index].append(sgn*vals[valindex])", "hist[sel_index].append(vals[valindex])")
+bad('c06-frame', 'C06', 'FRAME', 't2listing.py', "                                vals = self.read_table_line(line, ncols, fmt)\n", "                                vals = self.read_table_line(line, ncols, fmt)\n                                self._time = self.fulltimes[0]\n")
+# ---- C07
+bad('c07-funnel-seek', 'C07', 'FUNNEL', 't2listing.py', "        self._file.seek(self._fullpos[i])\n        self._index = i", "        if i != self._index + 1: self._file.seek(self._fullpos[i])\n        self._index = i")
+bad('c07-funnel-write', 'C07', 'FUNNEL', 't2listing.py', "    def first(self): self.index = 0", "    def first(self): self._index = 0")
+bad('c07-bounds', 'C07', 'BOUNDS', 't2listing.py', "more = self.index < self.num_fulltimes - 1", "more = self.index < self.num_fulltimes")
+bad('c07-nearest', 'C07', 'BOUNDS', 't2listing.py', "        elif t > self.fulltimes[-1]: self.index = -1", "        elif t > self.fulltimes[-1]: self.index = 0")
+bad('c07-bind', 'C07', 'BIND', 't2listing.py', "'read_tables','skip_to_table','read_table_line','read_title',", "'read_tables','skip_to_table','read_table_line','read_title','read_footer',")
+bad('c07-dep', 'C07', 'DEP', 't2listing.py', "    def set_index(self, i):\n        self._file.seek(self._fullpos[i])\n        self._index = i", "    def set_index(self, i):\n        self._index = i\n        self.skip_to_nonblank()\n        self._file.seek(self._fullpos[i])")
+# ---- C08
+bad('c08-pair-add', 'C08', 'PAIR', 't2grids.py', "        else: self.blocklist.append(newblock)\n        self.block[newblock.name] = newblock", "        self.block[newblock.name] = newblock")
+bad('c08-pair-del', 'C08', 'PAIR', 't2grids.py', "            del self.connection[connectionname]\n            self.connectionlist.remove(con)", "            del self.connection[connectionname]")
+bad('c08-backref', 'C08', 'PAIR', 't2grids.py', "            for block in con.block: block.connection_name.remove(connectionname)\n", "")
+bad('c08-rekey', 'C08', 'REKEY', 't2grids.py', "        self.block = dict([(blk.name, blk) for blk in self.blocklist])\n", "        for k, v in blockmap.items():\n            if k in self.block:\n                b = self.block[k]\n                del self.block[k]\n                self.block[v] = b\n")
+bad('c08-namekey', 'C08', 'NAMEKEY', 't2grids.py', "                rock = self.rocktype[rockname]\n                del self.rocktype[rockname]\n                rock.name = newrockname\n                self.rocktype[newrockname] = rock", "                rock = self.rocktype[rockname]\n                rock.name = newrockname")
+bad('c08-gen', 'C08', 'PAIR', 't2data.py', "        self.generatorlist, self.generator = [], {}\n        line = infile.readline()", "        self.generatorlist = []\n        line = infile.readline()")
+twin('c08-twin-helper', 'C08', 't2grids.py', "            del self.rocktype[rocktypename]\n            self.rocktypelist.remove(rt)", "            self.rocktypelist.remove(rt)\n            del self.rocktype[rocktypename]")
+# ---- C09
+bad('c09-orient', 'C09', 'ORIENT', 't2grids.py', "                        con.distance = con.distance[::-1]\n", "")
+bad('c09-orient2', 'C09', 'ORIENT', 't2grids.py', "                        if con.dircos is not None: con.dircos = -con.dircos\n", "")
+bad('c09-frame', 'C09', 'FRAME', 't2grids.py', "            blk.connection_name = cons\n", "            blk.connection_name = cons\n            blk.volume = float(blk.volume)\n")
+bad('c09-part-vol', 'C09', 'PART', 't2grids.py', "mincblk = t2block(mblockname, original_vol * vf,", "mincblk = t2block(mblockname, blk.volume * vf,")
+bad('c09-part-chain', 'C09', 'PART', 't2grids.py', "                            self.add_connection(con)\n                            lastblk = mincblk", "                            self.add_connection(con)")
+bad('c09-part-norm', 'C09', 'PART', 't2grids.py', "            volume_fractions /= np.sum(volume_fractions)\n", "            volume_fractions /= np.max(volume_fractions)\n")
+bad('c09-embed', 'C09', 'PART', 't2grids.py', "                result.block[hostblock.name].volume -= subvol # remove subgrid volume from host block\n", "")
+# ---- C10
+bad('c10-pair', 'C10', 'PAIR', 'mulgrids.py', "        del self.layer[layername]\n        self.layerlist.remove(layer)", "        self.layerlist.remove(layer)")
+bad('c10-backref', 'C10', 'PAIR', 'mulgrids.py', "            for node in col.node: node.column.add(col)\n", "")
+bad('c10-nbr', 'C10', 'NBRSYM', 'mulgrids.py', "                        c.neighbour.add(col2)\n", "")
+bad('c10-couple', 'C10', 'COUPLE', 'mulgrids.py', "                    col2.num_layers = col.num_layers\n", "")
+bad('c10-couple2', 'C10', 'COUPLE', 'mulgrids.py', "            col.surface = elev\n            self.set_column_num_layers(col)", "            col.surface = elev")
+bad('c10-refresh', 'C10', 'REFRESH', 'mulgrids.py', "        for col in self.columnlist: self.set_column_num_layers(col)\n        self.setup_block_name_index()\n        self.setup_block_connection_name_index()\n\n    def copy_wells_from", "        for col in self.columnlist: self.set_column_num_layers(col)\n        self.setup_block_name_index()\n\n    def copy_wells_from")
+bad('c10-namekey', 'C10', 'NAMEKEY', 'mulgrids.py', "            self.connection = dict([(tuple([col.name for col in con.column]), con)\n                                    for con in self.connectionlist])\n", "")
+bad('c10-rekey', 'C10', 'REKEY', 'mulgrids.py', "            self.layer = dict([(lay.name, lay) for lay in self.layerlist])\n", "            for olditem, newitem in zip(oldlayername, newlayername):\n                self.layer[newitem] = self.layer.pop(olditem)\n")
+# ---- C11
+bad('c11-tile', 'C11', 'TILE', 'mulgrids.py', "(1, 0): ((0, (0, 1), 3), ((0, 1), 1, 2),\n                                              ((0, 1), 2, 3)),", "(1, 0): ((0, (0, 1), 3), ((0, 1), 1, 2),\n                                              ((0, 1), 1, 3)),")
+bad('c11-tile2', 'C11', 'TILE', 'mulgrids.py', "[(0, 1, 2), (0, 2, 3), (0, 3, 4)]", "[(0, 1, 2), (0, 2, 3), (1, 3, 4)]")
+bad('c11-dispatch', 'C11', 'DISPATCH', 'mulgrids.py', "elif nunref == 1: return nref, (missing[0] + 1) % nn, nn - 2", "elif nunref == 1: return nref, missing[0] % nn, nn - 2")
+bad('c11-inherit', 'C11', 'INHERIT', 'mulgrids.py', "                    self.add_column(column(name, nodes, surface = col.surface))\n                    self.columnlist[-1].num_layers = col.num_layers\n            # clean up:", "                    self.add_column(column(name, nodes))\n                    self.columnlist[-1].num_layers = col.num_layers\n            # clean up:")
+bad('c11-part', 'C11', 'PART', 'mulgrids.py', "thicknesses += [lay.thickness / factor] * factor", "thicknesses += [lay.thickness / factor] * (factor + 1)")
+bad('c11-mid', 'C11', 'DISPATCH', 'mulgrids.py', "midpos = 0.5 * (node1.pos + node2.pos)", "midpos = 0.5 * (node1.pos - node2.pos)")
+twin('c11-twin', 'C11', 'mulgrids.py', "midpos = 0.5 * (node1.pos + node2.pos)", "midpos = (node2.pos + node1.pos) * 0.5")
+# ---- C12
+bad('c12-dom', 'C12', 'DOM', 'mulgrids.py', "                        if nearnbrcols[i].contains_point(pos): return nearnbrcols[i]", "                        if nearnbrcols[i].near_point(pos): return nearnbrcols[i]")
+bad('c12-halfopen', 'C12', 'HALFOPEN', 'geometry.py', "if p1[1] <= v[1] < p2[1] or p2[1] <= v[1] < p1[1]:", "if p1[1] <= v[1] <= p2[1] or p2[1] <= v[1] < p1[1]:")
+bad('c12-pred', 'C12', 'PRED', 'mulgrids.py', "                if (col.surface > layer.bottom):\n                    blkname", "                if (col.surface >= layer.bottom):\n                    blkname")
+bad('c12-layer', 'C12', 'HALFOPEN', 'mulgrids.py', "        return self.bottom <= z <= self.top", "        return self.bottom < z <= self.top")
+# ---- C13
+bad('c13-term', 'C13', 'TERM', 't2incons.py', "if (self.timing is None) or reset: outfile.write('\\n\\n')", "if (self.timing is None) or reset: pass")
+bad('c13-fmap', 'C13', 'FMAP', 't2incons.py', "outfile.write_values([blkname, incon.nseq, incon.nadd, incon.porosity], 'incon1')", "outfile.write_values([blkname, incon.nadd, incon.nseq, incon.porosity], 'incon1')")
+bad('c13-namefix', 'C13', 'NAMEFIX', 't2incons.py', "            blkname = unfix_blockname(incon.block)", "            blkname = incon.block")
+bad('c13-chunk', 'C13', 'CHUNK', 't2incons.py', "linelen = min(len(vals), 4)", "linelen = min(len(vals), 5)")
+bad('c13-prefix', 'C13', 'LAYPREFIX', 't2incons.py', "    'incon1': [['name', 'nseq', 'nadd', 'porx'],\n               ['5s', '5d', '5d', '15.9e']],", "    'incon1': [['name', 'nseq', 'nadd', 'porx'],\n               ['5s', '6d', '4d', '15.9e']],")
+bad('c13-timing', 'C13', 'LAYPREFIX', 't2incons.py', "            timing_fmt = 'timing'\n            if self.simulator == 'TOUGHREACT': timing_fmt += '_toughreact'\n            outfile.write_value_line", "            timing_fmt = 'timing'\n            if self.simulator != 'TOUGH2': timing_fmt += '_toughreact'\n            outfile.write_value_line")
+# ---- C14
+bad('c14-chain', 'C14', 'CHAIN', 'IAPWS97.py', "(20, (8, 8, 4)), (21, (20, 1))", "(20, (8, 8, 3)), (21, (20, 1))")
+bad('c14-use', 'C14', 'USE', 'IAPWS97.py', "(28, (23, 5)),\n       (29, (22, 7))", "(29, (22, 7))")
+bad('c14-deriv', 'C14', 'DERIV', 'IAPWS97.py', "gamt = sum([n * pspow[i] * j * tspow[j - 1] for", "gamt = sum([n * pspow[i] * j * tspow[j] for")
+bad('c14-guard', 'C14', 'GUARD', 'IAPWS97.py', "    if t <= 350.0 and p <= 100.e6:\n\n        tk = t + tc_k\n        pi = p / pstar1", "    if t <= 340.0 and p <= 100.e6:\n\n        tk = t + tc_k\n        pi = p / pstar1")
+bad('c14-sat', 'C14', 'GUARD', 'IAPWS97.py', "    if 0. <= t <= tcritical:", "    if 0. <= t < tcritical:")
+bad('c14-transp', 'C14', 'TRANSP', 'IAPWS97.py', "f = nr4[0] * beta2 + nr4[3] * beta + nr4[6]", "f = nr4[0] * beta2 + nr4[4] * beta + nr4[6]")
+# ---- C15
+bad('c15-pow', 'C15', 'POWNAME', 't2thermo.py', "        TKR19 = TKR8 * TKR11", "        TKR19 = TKR8 * TKR10")
+bad('c15-bounds', 'C15', 'BOUNDS', 't2thermo.py', "        if (0.01 <= t <= 350.) and (p <= 1.e8): ok = (p >= sat(t))\n        else: ok = False", "        if (0.01 <= t <= 350.) and (p <= 1.e8): ok = (p >= sat(t))\n        else: ok = True")
+bad('c15-guard', 'C15', 'GUARD', 't2thermo.py', "            if t <= Tc1_C: ok = (p <= sat(t))", "            if t <= Tc1_C: ok = (p < sat(t))")
+bad('c15-sib', 'C15', 'SIBCONST', 't2thermo.py', "        elif t <= 590.:\n            return 2 if p < b23p(t) else 3", "        elif t <= 600.:\n            return 2 if p < b23p(t) else 3")
+bad('c15-clamp', 'C15', 'CLAMP', 't2thermo.py', "    return max(min(frac, 1.0), 0.0)", "    return min(frac, 1.0)")
+# ---- C16
+bad('c16-exc', 'C16', 'EXC', 'fixed_format_file.py', "                    return float(''.join([s[0], s[1:].replace('-', 'e-')]))\n                except ValueError:", "                    return float(''.join([s[0], s[1:].replace('-', 'e-')]))\n                except IndexError:")
+bad('c16-exc2', 'C16', 'EXC', 'fixed_format_file.py', "            try:\n              s = s.replace(' ', '')\n              return int(s)\n            except: return None", "            s = s.replace(' ', '')\n            return int(s)")
+bad('c16-whocall', 'C16', 'WHOCALL', 't2listing.py', "return [fortran_float(line[fmt['values'][i]: fmt['values'][i+1]])", "return [float(line[fmt['values'][i]: fmt['values'][i+1]])")
+bad('c16-whocall2', 'C16', 'WHOCALL', 't2incons.py', "    def __init__(self, filename, mode, read_function = fortran_read_function):", "    def __init__(self, filename, mode, read_function = default_read_function):")
+# ---- C17
+bad('c17-slice', 'C17', 'SLICE', 'mulgrids.py', "        elif self.convention == 2: return blockname[2: 5]\n        elif self.convention == 3: return blockname[0: 3]", "        elif self.convention == 2: return blockname[3: 5]\n        elif self.convention == 3: return blockname[0: 3]")
+bad('c17-len', 'C17', 'SLICE', 'mulgrids.py', "self.layername_length = [2, 3, 2, 2][self.convention]", "self.layername_length = [2, 2, 2, 2][self.convention]")
+bad('c17-guard', 'C17', 'LENGUARD', 'mulgrids.py', "        if len(name) > self.layername_length:\n            raise NamingConventionError(\n                \"Layer name is too long for the grid naming convention.\")\n        return name", "        return name")
+bad('c17-guard2', 'C17', 'LENGUARD', 'mulgrids.py', "        name = self.node_col_name_from_number(num, justfn, chars, spaces)\n        if len(name) > self.colname_length:\n            raise NamingConventionError(\n                \"Column name is too long", "        name = self.node_col_name_from_number(num, justfn, chars, spaces)\n        if len(name) > self.colname_length + 1:\n            raise NamingConventionError(\n                \"Column name is too long")
+bad('c17-avoid', 'C17', 'AVOID', 'mulgrids.py', "            name = surfacelayername\n            while name == surfacelayername:\n                # make sure layer name is different from surface layer name\n                num += 1\n                name = self.layer_name_from_number(num, justfn, chars, spaces)", "            num += 1\n            name = self.layer_name_from_number(num, justfn, chars, spaces)")
+bad('c17-fresh', 'C17', 'FRESH', 'mulgrids.py', "        used = name in d\n    return name, i", "        used = name.strip() in d\n    return name, i")
+# ---- C19
+bad('c19-total', 'C19', 'TOTAL', 'mulgrids.py', "        for dest in geo.block_name_list:\n            destcol, destlayer", "        for dest in geo.block_name_list[1:]:\n            destcol, destlayer")
+bad('c19-offset', 'C19', 'TOTAL', 'mulgrids.py', "closest = self.layerlist[1 + np.argmin(laydist)]", "closest = self.layerlist[np.argmin(laydist)]")
+bad('c19-case', 'C19', 'CASE', 't2incons.py', "            else: self[atmblk] = copy(default_atm_incons)\n        elif geo.atmosphere_type == 1:", "            else: pass\n        elif geo.atmosphere_type == 1:")
+bad('c19-alias', 'C19', 'NOALIAS', 't2incons.py', "            if sourcegeo.atmosphere_type == 0: self[atmblk] = copy(sourceinc[0])", "            if sourcegeo.atmosphere_type == 0: self[atmblk] = sourceinc[0]")
+bad('c19-alias2', 'C19', 'NOALIAS', 't2data.py', "                for blk in mappedblocks:\n                    gen = deepcopy(sourcegen)", "                for blk in mappedblocks:\n                    gen = sourcegen")
+bad('c19-pred', 'C19', 'PRED', 'mulgrids.py', "if self.column[sourcecol].surface <= self.layer[sourcelayer].bottom:", "if self.column[sourcecol].surface < self.layer[sourcelayer].bottom:")
+# ---- C20
+bad('c20-post', 'C20', 'POST', 't2data.py', "        self.simulator = ''\n        self.delete_section('SIMUL')\n", "        self.simulator = ''\n")
+bad('c20-post2', 'C20', 'POST', 't2data.py', "            if 'eos' in self.multi: del self.multi['eos']\n", "")
+bad('c20-flow', 'C20', 'FLOW', 't2data.py', "        if delgens:\n            self.generatorlist = keepgens\n            self.generator = dict([((gen.block, gen.name), gen) for gen in self.generatorlist])\n", "")
+bad('c20-eos', 'C20', 'EOSFLOW', 't2data.py', "                        aut2eosname = eosname\n", "                        autseosname = eosname\n")
+bad('c20-once', 'C20', 'ONCE', 't2data.py', "            if 0. < blk.volume < atmos_volume:\n                jsondata['rock']", "            if 0. <= blk.volume < atmos_volume:\n                jsondata['rock']")
+bad('c20-once2', 'C20', 'ONCE', 't2data.py', "cell_index = geo.block_name_index[gen.block] - geo.num_atmosphere_blocks", "cell_index = geo.block_name_index[gen.block]")
+bad('c20-dispatch', 'C20', 'POST', 't2data.py', "                if oldtype == 'AUTOUGH2': self.convert_to_TOUGH2()\n                elif oldtype == 'TOUGH2': self.convert_to_AUTOUGH2()", "                if oldtype == 'TOUGH2': self.convert_to_TOUGH2()\n                elif oldtype == 'AUTOUGH2': self.convert_to_AUTOUGH2()")
+
+
+def _run_one(entry):
+    i, pid, rule, kind, fname, old, new = entry
+    src_path = os.path.join(os.environ.get('PYTOUGH_SA_SELFTEST_REPO', REPO), fname)
+    with open(src_path, 'rb') as f:
+        src = f.read().decode('utf-8', 'replace')
+    if old not in src:
+        return (i, pid, rule, kind, 'skipped', 'source fragment not present any more')
+    if old == new and kind == 'twin':
+        mutated = src
+    else:
+        mutated = src.replace(old, new, 1)
+    d = tempfile.mkdtemp(prefix='pytough_sa_selftest_')
+    try:
+        for m in MODULES:
+            p = os.path.join(os.environ.get('PYTOUGH_SA_SELFTEST_REPO', REPO), m + '.py')
+            shutil.copy(p, os.path.join(d, m + '.py'))
+        with open(os.path.join(d, fname), 'w') as f:
+            f.write(mutated)
+        try:
+            import warnings
+            with warnings.catch_warnings():
+                warnings.simplefilter('ignore')
+                compile(mutated, fname, 'exec')
+        except SyntaxError as e:
+            return (i, pid, rule, kind, 'error', 'mutant does not compile: %s' % e)
+        from .__main__ import run_check
+        buf = io.StringIO()
+        with contextlib.redirect_stdout(buf):
+            code = run_check(pid, 'quick', root=d, write=False)
+        out = buf.getvalue()
+        if kind == 'bad':
+            hit = any(('violated: [%s]' % rule) in line for line in out.splitlines())
+            if code == 1 and hit: return (i, pid, rule, kind, 'ok', 'reported by %s' % rule)
+            anyv = [l.strip() for l in out.splitlines() if 'violated: [' in l]
+            return (i, pid, rule, kind, 'MISSED', 'exit %d; other reports: %s' % (code, anyv[:2]))
+        else:
+            if code == 0: return (i, pid, rule, kind, 'ok', 'silent')
+            bad_ = [l.strip() for l in out.splitlines() if 'violated: [' in l or 'ANALYSIS-ERROR' in l]
+            return (i, pid, rule, kind, 'FALSE-ALARM', 'exit %d: %s' % (code, bad_[:2]))
+    finally:
+        shutil.rmtree(d, ignore_errors=True)
+
+
+def run(entries, jobs=16):
+    if not entries: return []
+    import multiprocessing as mp
+    with mp.Pool(min(jobs, len(entries))) as pool:
+        return pool.map(_run_one, entries)
+
+
+def summarise(results):
+    ok = sum(1 for r in results if r[4] == 'ok')
+    bad_ = [r for r in results if r[4] in ('MISSED', 'FALSE-ALARM', 'error')]
+    skipped = [r for r in results if r[4] == 'skipped']
+    return ok, bad_, skipped
+
+
+def run_for_property(pid, root=None, quiet=False):
+    """returns (status code, summary dict)"""
+    entries = [e for e in M if e[1] == pid]
+    res = run(entries)
+    ok, bad_, skipped = summarise(res)
+    if not quiet:
+        print('  self-test %s: %d mutants/twins, %d as expected, %d wrong, %d skipped' % (pid, len(res), ok, len(bad_), len(skipped)))
+        for r in bad_: print('  SELFTEST %s %s [%s] %s: %s' % (r[4], r[0], r[2], r[3], r[5]))
+        for r in skipped: print('  selftest skipped %s: %s' % (r[0], r[5]))
+    summary = {'entries': len(res), 'as_expected': ok, 'wrong': [list(r) for r in bad_], 'skipped': [r[0] for r in skipped],
+               'detail': [{'id': r[0], 'rule': r[2], 'kind': r[3], 'result': r[4]} for r in res]}
+    return (2 if bad_ else 0), summary
+
+
 def main(args):
-    return 0
+    jobs = 16
+    only = None
+    if '--jobs' in args: jobs = int(args[args.index('--jobs') + 1])
+    if '--only' in args: only = args[args.index('--only') + 1]
+    entries = [e for e in M if only is None or only in (e[0], e[1], e[2])]
+    res = run(entries, jobs)
+    ok, bad_, skipped = summarise(res)
+    for r in res:
+        print('%-12s %-18s %-4s %-9s %-5s %s' % (r[4], r[0], r[1], r[2] or '-', r[3], r[5][:150]))
+    print('self-test: %d entries, %d as expected, %d wrong, %d skipped' % (len(res), ok, len(bad_), len(skipped)))
+    return 2 if bad_ else 0
